@@ -198,7 +198,9 @@ CLAIMS = {
         "from the real AST: for all blocks A, B the output connections of A contain B exactly if the input connections of B contain A; "
         "every combinational block given by the user, and every inverter existing when the second pass starts, ends with all its inputs "
         "resolved (single or group: Const objects or blocks registered in this circuit under their own names) and with every block among "
-        "them as an input connection; Const objects are never connected; registered blocks stay registered.  Circuit._validate_blk "
+        "them as an input connection; conversely every input connection of a user block that is not an inverter, and of an inverter "
+        "created by a shortcut, is one of its resolved inputs (ghost witnesses: input name and group position); Const objects are never "
+        "connected; registered blocks stay registered.  Circuit._validate_blk "
         "(resolution by cases: Const kept, known name -> block of that name, '_ctrl' / '_not_NAME' shortcuts create the block once "
         "under that name with NAME as the inverter's input, plain values become Const, foreign blocks and unknown names are errors; "
         "summary clauses used by _finalize proved on the same body), the validate_output wrapper, finalize (idempotent, sets the "
@@ -206,7 +208,7 @@ CLAIMS = {
         "_BlockResolver._check_type/register/resolve; lemma one_inverter; scans: writers of _finalized, oconnections/iconnections mutated "
         "only by _finalize, the resolver's registration sites.",
    note="Trusted: pyvc encoding, z3; Const and Block are disjoint classes.  Bounded only (206 small circuits + error families): the converse "
-        "'an input connection is one of the block's resolved inputs', 'no block is created in the second pass', CBlock.connect/"
+        "for user-created inverters (processed in both passes), 'no block is created in the second pass', CBlock.connect/"
         "check_signature/get_conf."),
  'C16': dict(
    text="Event.send (filter loop with an inductive invariant over the pipeline fold), not_from_undef, Edge, Delta, IfOutput, "
